@@ -108,6 +108,8 @@ inline void violation(const std::string& key, const std::string& detail) {
 }
 inline void inconclusive(const std::string& reason) { ++st().inconclusive; count("inconclusive." + reason); }
 
+inline std::vector<std::function<void()> >& exit_hooks() { static std::vector<std::function<void()> > v; return v; }
+
 inline void write_summary(bool final) {
   State& S = st();
   if (!S.out) return;
@@ -163,6 +165,7 @@ inline int main_loop(int argc, char** argv, const std::function<void(uint64_t)>&
     if ((c - O.first) % 64 == 63) write_summary(false);
   }
   if (at_exit) at_exit();
+  for (size_t i = 0; i < exit_hooks().size(); ++i) exit_hooks()[i]();
   write_summary(true);
   if (S.out != stdout) fclose(S.out);
   return 0;
